@@ -843,8 +843,23 @@ fn positive(text: &str, derivation: Option<(&Grammar, &DNode, &[(usize, usize)])
                     }
                     if !w.reached.contains(&(kind.clone(), s, e)) {
                         let near: Vec<_> = w.reached.iter().filter(|r| r.0 == kind && (r.1 == s || r.2 == e)).collect();
+                        // the known leniency again, in a sentence the parser accepts: the constituent ends in a string
+                        // literal, the next constituent starts with one, and the parser has concatenated the two - so a
+                        // node of the same kind starts where the constituent starts and runs on over the next literal
+                        let ends_in_string = text.get(s..e).map(|t| t.trim_end().ends_with('"')).unwrap_or(false);
+                        let merged = ends_in_string
+                            && w.reached.iter().any(|r| {
+                                r.0 == kind && r.1 == s && r.2 > e && {
+                                    let tail = text.get(e..r.2).unwrap_or("");
+                                    let mut t = tail.trim_start();
+                                    while t.starts_with("/*") {
+                                        t = t.find("*/").map(|i| t[i + 2..].trim_start()).unwrap_or("");
+                                    }
+                                    t.starts_with('"') && t.trim_end().ends_with('"')
+                                }
+                            });
                         ctx.violation(
-                            format!("constituent-unreachable:{}<{}", kind, parent),
+                            if merged { "constituent-unreachable:adjacent-strings-merged".to_string() } else { format!("constituent-unreachable:{}<{}", kind, parent) },
                             format!("{} at {}..{} ({:?}) of the derivation is not reached through the typed accessors with that range (same kind nearby: {:?})", kind, s, e, text.get(s..e).unwrap_or(""), near),
                             sentence_case(text),
                         );
